@@ -39,7 +39,7 @@ build() {
 # Properties with the concurrent-hands part (world Y) need a second binary,
 # built over a generated copy of $REPO in which every engine statement is a
 # scheduling point. The copy lives under /var/tmp only while it is compiled.
-needs_y() { case "$1" in C01|C02|C07|C10|C14|C15|C16) return 0;; esac; return 1; }
+needs_y() { case "$1" in C01|C02|C07|C08|C10|C14|C15|C16|C17|C18) return 0;; esac; return 1; }
 
 build_y() {
   mkdir -p "$BUILD"
@@ -83,7 +83,7 @@ case "${1:-}" in
     ;;
   replay)
     build
-    if grep -q '"world": *"Y"' "${2:?file}" 2>/dev/null; then build_y; fi
+    if grep -q '"world": *"S\?Y"' "${2:?file}" 2>/dev/null; then build_y; fi
     "$BIN" replay "${2:?file}"
     exit $?
     ;;
